@@ -36,13 +36,13 @@ def cases(tier, seed):
     for k in range(n):
         writer = "kern1" if rng.random() < 0.7 else "kern2"
         c = layout_gen.kerning_font(rng, writer)
-        c.update({"cid": f"c05-{seed}-{k}", "lib": rng.choice(["ufoLib2", "defcon"]), "writers": ["kern"]})
+        c.update({"cid": f"c05-{seed}-{k}", "lib": rng.choice(["ufoLib2", "defcon"]), "writers": ["kern", "mark"] if c.get("withMarks") else ["kern"]})
         if k % 5 == 4:
             # the same writer instance then serves one or two other fonts (same options)
             c["then"] = []
             for j in range(rng.randint(1, 2)):
                 d = layout_gen.kerning_font(rng, writer)
-                d.update({"cid": f"c05-{seed}-{k}+{j + 1}", "lib": c["lib"], "writers": ["kern"], "q": c.get("q", 1), "kernOpts": c.get("kernOpts")})
+                d.update({"cid": f"c05-{seed}-{k}+{j + 1}", "lib": c["lib"], "writers": c["writers"], "q": c.get("q", 1), "kernOpts": c.get("kernOpts")})
                 c["then"].append(d)
         out.append(c)
     # the variable-font path of both writers: per-master kerning (pairs and exceptions present in some masters only), read
